@@ -370,4 +370,246 @@ theorem rmEdges_spec (g : MG) (n : Nd) (hloop : ∀ e ∈ g.edges, ¬(e.src = n 
     apply hkeepAdd
     exact (mem_addNew ie _ oe _).2 (Or.inr ⟨hk, rfl⟩)
 
+/-! ## `remove_op` of a one-register node -/
+
+theorem opOf_removeNode (g g' : MG) (n : Nd) (h : g'.nodes = g.nodes.filter (fun p => p.1 != n)) (m : Nd) :
+    g'.opOf m = if m = n then none else g.opOf m := by
+  unfold MG.opOf
+  rw [h, List.find?_filter]
+  by_cases hm : m = n
+  · rw [if_pos hm]
+    have : g.nodes.find? (fun a => decide ((a.1 != n) = true ∧ (a.1 == m) = true)) = none := by
+      rw [List.find?_eq_none]
+      intro a _
+      rw [hm]
+      simp
+    rw [this]; rfl
+  · rw [if_neg hm]
+    have : (fun a : Nd × NOp => decide ((a.1 != n) = true ∧ (a.1 == m) = true)) = (fun a : Nd × NOp => a.1 == m) := by
+      funext a
+      by_cases ha : a.1 = m
+      · have hne : a.1 ≠ n := fun h' => hm (ha.symm.trans h')
+        simp [ha, hm]
+      · have : (a.1 == m) = false := by simpa using ha
+        simp [this]
+    rw [this]
+
+theorem Rep0.no_loop {g : MG} {W : List Wire} {body : Wire → List Nd} (r : Rep0 g W body) (p : Nd) :
+    ∀ e ∈ g.edges, ¬(e.src = p ∧ e.dst = p) := by
+  rintro e he ⟨hs, hd⟩
+  obtain ⟨hk, l1, l2, h12⟩ := r.edge_sound0 e he
+  have hnd := r.pathNodup _ hk
+  rw [h12, hs, hd] at hnd
+  have := (List.nodup_append.1 hnd).2.1
+  exact (List.nodup_cons.1 this).1 (by simp)
+
+/-- **`remove_op` of a one-register operation node takes it out of the path of its register** -/
+theorem NInv.removeOne {W : List Wire} {g : MG} {body : Wire → List Nd} (h : NInv W g body) (p : Nd) (o : Op)
+    (hp : g.opOf p = some (.gate o)) (wq : Wire) (ho : opWires o = [wq]) :
+    ∃ b1 b2, body wq = b1 ++ p :: b2 ∧ NInv W (g.removeOp p) (upd body wq (b1 ++ b2)) ∧
+      (∀ m, (g.removeOp p).opOf m = if m = p then none else g.opOf m) := by
+  obtain ⟨hwq, hpb⟩ := h.onPath p o hp wq (by rw [ho]; simp)
+  obtain ⟨b1, b2, hb⟩ := List.append_of_mem hpb
+  refine ⟨b1, b2, hb, ?_⟩
+  have spec := rmEdges_spec g p (h.rep.no_loop p)
+  have hnodes : (g.removeOp p).nodes = g.nodes.filter (fun q => q.1 != p) := by
+    rw [removeOp_eq]; show (rmEdges g p).nodes.filter _ = _; rw [spec.nodes]
+  have hedges : (g.removeOp p).edges = (rmEdges g p).edges := by rw [removeOp_eq]
+  have hop : ∀ m, (g.removeOp p).opOf m = if m = p then none else g.opOf m := opOf_removeNode g _ p hnodes
+  have hopne : ∀ m, m ≠ p → (g.removeOp p).opOf m = g.opOf m := fun m hm => by rw [hop m, if_neg hm]
+  -- the neighbours of `p` on the path
+  obtain ⟨l1, a, hl1⟩ : ∃ l1 a, Nd.inp wq :: b1 = l1 ++ [a] := by
+    rcases List.eq_nil_or_concat (Nd.inp wq :: b1) with h' | ⟨l1, a, h'⟩
+    · cases h'
+    · exact ⟨l1, a, by rw [h', List.concat_eq_append]⟩
+  obtain ⟨b, l2, hl2⟩ : ∃ b l2, b2 ++ [Nd.out wq] = b :: l2 := by
+    cases hh : b2 ++ [Nd.out wq] with
+    | nil => simp at hh
+    | cons b l2 => exact ⟨b, l2, rfl⟩
+  have hpath : pathOf body wq = l1 ++ a :: p :: b :: l2 := by
+    unfold pathOf
+    rw [hb]
+    have : Nd.inp wq :: ((b1 ++ p :: b2) ++ [Nd.out wq]) = (Nd.inp wq :: b1) ++ p :: (b2 ++ [Nd.out wq]) := by simp
+    rw [this, hl1, hl2]; simp
+  have hpath' : pathOf (upd body wq (b1 ++ b2)) wq = l1 ++ a :: b :: l2 := by
+    unfold pathOf
+    rw [upd_same]
+    have : Nd.inp wq :: ((b1 ++ b2) ++ [Nd.out wq]) = (Nd.inp wq :: b1) ++ (b2 ++ [Nd.out wq]) := by simp
+    rw [this, hl1, hl2]; simp
+  have hnd := h.rep.pathNodup wq hwq
+  have hpother : ∀ w', w' ≠ wq → pathOf (upd body wq (b1 ++ b2)) w' = pathOf body w' := by
+    intro w' hw'; unfold pathOf; rw [upd_other body wq w' _ hw']
+  -- `p` lies on the path of `wq` only
+  have honly : ∀ k ∈ W, p ∈ pathOf body k → k = wq := by
+    intro k hk hm
+    have := (h.rep.gate_on_path k hk p o hp hm).2
+    rw [ho, List.mem_singleton] at this
+    exact this
+  have hpnot : p ∉ l1 ++ a :: b :: l2 := by
+    rw [hpath] at hnd
+    have hperm : (l1 ++ a :: p :: b :: l2).Perm (p :: (l1 ++ a :: b :: l2)) := by
+      have e1 : l1 ++ a :: p :: b :: l2 = (l1 ++ [a]) ++ p :: (b :: l2) := by simp
+      have e2 : l1 ++ a :: b :: l2 = (l1 ++ [a]) ++ (b :: l2) := by simp
+      rw [e1, e2]; exact List.perm_middle
+    exact (List.nodup_cons.1 (hperm.nodup_iff.1 hnd)).1
+  -- in- and out-edges of `p`
+  have hin : ∀ ie ∈ g.edges, ie.dst = p → ie.key = wq ∧ ie.src = a := by
+    intro ie hie hd
+    obtain ⟨hk, m1, m2, hm⟩ := h.rep.edge_sound0 ie hie
+    have hkq : ie.key = wq := honly _ hk (by rw [hm, hd]; simp)
+    rw [hkq, hd, hpath] at hm
+    have e1 : l1 ++ a :: p :: b :: l2 = (l1 ++ [a]) ++ p :: (b :: l2) := by simp
+    have e2 : m1 ++ ie.src :: p :: m2 = (m1 ++ [ie.src]) ++ p :: m2 := by simp
+    rw [hpath] at hnd
+    obtain ⟨h1, _⟩ := nodup_split_unique _ hnd p _ _ _ _ e1 (hm.trans e2)
+    exact ⟨hkq, ((List.append_inj' h1 rfl).2 |> fun h' => by injection h' with h' _; exact h'.symm)⟩
+  have hout : ∀ oe ∈ g.edges, oe.src = p → oe.key = wq ∧ oe.dst = b := by
+    intro oe hoe hs
+    obtain ⟨hk, m1, m2, hm⟩ := h.rep.edge_sound0 oe hoe
+    have hkq : oe.key = wq := honly _ hk (by rw [hm, hs]; simp)
+    rw [hkq, hs, hpath] at hm
+    have e1 : l1 ++ a :: p :: b :: l2 = (l1 ++ [a]) ++ p :: (b :: l2) := by simp
+    rw [hpath] at hnd
+    obtain ⟨_, h2⟩ := nodup_split_unique _ hnd p _ _ _ _ e1 hm
+    injection h2 with h2 _
+    exact ⟨hkq, h2.symm⟩
+  have hrep : Rep0 (g.removeOp p) W (upd body wq (b1 ++ b2)) := by
+    refine ⟨?_, ?_, ?_, ?_, ?_, ?_, ?_, ?_, ?_, ?_⟩
+    · intro w hw
+      by_cases hk : w = wq
+      · subst hk
+        rw [hpath']
+        rw [hpath] at hnd
+        refine hnd.sublist ?_
+        exact List.Sublist.append (List.Sublist.refl l1) (List.Sublist.cons_cons a (List.Sublist.cons p (List.Sublist.refl _)))
+      · rw [hpother w hk]; exact h.rep.pathNodup w hw
+    · intro w hw n hn
+      have hnb : n ∈ body w ∧ n ≠ p := by
+        by_cases hk : w = wq
+        · subst hk
+          rw [upd_same] at hn
+          refine ⟨by rw [hb]; simp only [List.mem_append, List.mem_cons] at hn ⊢; tauto, ?_⟩
+          rintro rfl
+          apply hpnot
+          rw [← hpath']
+          exact (mem_pathOf _ _ _).2 (Or.inr (Or.inl (by rw [upd_same]; exact hn)))
+        · rw [upd_other body wq w _ hk] at hn
+          refine ⟨hn, ?_⟩
+          rintro rfl
+          exact hk (honly w hw ((mem_pathOf _ _ _).2 (Or.inr (Or.inl hn))))
+      obtain ⟨id, o', h1, h2, h3⟩ := h.rep.bodyOp w hw n hnb.1
+      exact ⟨id, o', h1, by rw [hopne n hnb.2]; exact h2, h3⟩
+    · intro w hw
+      have : Nd.inp w ≠ p := by
+        intro h'; rw [← h', h.rep.inpOp w hw] at hp; cases hp
+      rw [hopne _ this]; exact h.rep.inpOp w hw
+    · intro w hw
+      have : Nd.out w ≠ p := by
+        intro h'; rw [← h', h.rep.outOp w hw] at hp; cases hp
+      rw [hopne _ this]; exact h.rep.outOp w hw
+    · intro n w hn
+      rw [hop n] at hn
+      split at hn
+      · cases hn
+      · exact h.rep.kindIn n w hn
+    · intro n w hn
+      rw [hop n] at hn
+      split at hn
+      · cases hn
+      · exact h.rep.kindOut n w hn
+    · intro n o' hn
+      rw [hop n] at hn
+      split at hn
+      · cases hn
+      · exact h.rep.wiresNodup n o' hn
+    · intro e' he'
+      rw [hedges] at he'
+      rcases spec.sound e' he' with ⟨hold, hs, hd⟩ | ⟨ie, hie, oe, hoe, hid, hos, hk, rfl⟩
+      · obtain ⟨hkW, hadj⟩ := h.rep.edge_sound0 e' hold
+        refine ⟨hkW, ?_⟩
+        by_cases hkq : e'.key = wq
+        · rw [hkq] at hadj ⊢
+          rw [hpath']
+          rw [hpath] at hadj
+          rcases adj_insert_inv l1 l2 a b p _ _ hadj with ⟨_, h2⟩ | ⟨h1, _⟩ | h3
+          · exact absurd h2 hd
+          · exact absurd h1 hs
+          · exact h3
+        · rw [hpother _ hkq]; exact hadj
+      · obtain ⟨hk1, hs1⟩ := hin ie hie hid
+        obtain ⟨hk2, hd2⟩ := hout oe hoe hos
+        show (newEdge ie oe).key ∈ W ∧ Adj (pathOf _ (newEdge ie oe).key) (newEdge ie oe).src (newEdge ie oe).dst
+        simp only [newEdge, hk2, hs1, hd2]
+        exact ⟨hwq, by rw [hpath']; exact ⟨l1, l2, rfl⟩⟩
+    · intro w hw u v hadj
+      rw [hedges]
+      by_cases hk : w = wq
+      · subst hk
+        rw [hpath'] at hadj
+        by_cases huv : u = a ∧ v = b
+        · obtain ⟨rfl, rfl⟩ := huv
+          obtain ⟨ie, hie, h1, h2, h3⟩ := h.rep.edge_complete w hw u p (by rw [hpath]; exact ⟨l1, v :: l2, rfl⟩)
+          obtain ⟨oe, hoe, h4, h5, h6⟩ := h.rep.edge_complete w hw p v (by rw [hpath]; exact ⟨l1 ++ [u], l2, by simp⟩)
+          refine ⟨newEdge ie oe, spec.new ie hie oe hoe h2 h4 (h3.trans h6.symm), ?_, ?_, ?_⟩
+          · exact h1
+          · exact h5
+          · exact h6
+        · have hold := adj_insert l1 l2 a b p u v hadj huv
+          rw [← hpath] at hold
+          obtain ⟨e0, he0, h1, h2, h3⟩ := h.rep.edge_complete w hw u v hold
+          have hu : u ≠ p := by
+            rintro rfl; exact hpnot (adj_mem_left hadj)
+          have hv : v ≠ p := by
+            rintro rfl; exact hpnot (adj_mem_right hadj)
+          exact ⟨e0, spec.keep e0 he0 (by rw [h1]; exact hu) (by rw [h2]; exact hv), h1, h2, h3⟩
+      · rw [hpother w hk] at hadj
+        obtain ⟨e0, he0, h1, h2, h3⟩ := h.rep.edge_complete w hw u v hadj
+        have hu : u ≠ p := by
+          rintro rfl; exact hk (honly w hw (adj_mem_left hadj))
+        have hv : v ≠ p := by
+          rintro rfl; exact hk (honly w hw (adj_mem_right hadj))
+        exact ⟨e0, spec.keep e0 he0 (by rw [h1]; exact hu) (by rw [h2]; exact hv), h1, h2, h3⟩
+    · intro w hm
+      apply h.rep.inputsW w
+      rw [hnodes] at hm
+      obtain ⟨q, hq, hq1⟩ := List.mem_map.1 hm
+      exact List.mem_map.2 ⟨q, (List.mem_filter.1 hq).1, hq1⟩
+  refine ⟨⟨hrep, ?_, ?_, ?_⟩, hop⟩
+  · intro n o' hn w' hw'
+    rw [hop n] at hn
+    split at hn
+    · cases hn
+    · rename_i hne
+      obtain ⟨a', b'⟩ := h.onPath n o' hn w' hw'
+      refine ⟨a', ?_⟩
+      by_cases hk : w' = wq
+      · subst hk
+        rw [upd_same]
+        rw [hb] at b'
+        simp only [List.mem_append, List.mem_cons] at b' ⊢
+        rcases b' with h1 | h1 | h1
+        · exact Or.inl h1
+        · exact absurd h1 hne
+        · exact Or.inr h1
+      · rw [upd_other body wq w' _ hk]; exact b'
+  · rw [hnodes]
+    exact (h.names.sublist (List.Sublist.map _ List.filter_sublist))
+  · intro n hn k hk
+    have hid : (g.removeOp p).nodeId = g.nodeId := by
+      rw [removeOp_eq]
+      show (rmEdges g p).nodeId = g.nodeId
+      unfold rmEdges
+      refine foldl_inv rmOut (fun g' : MG => g'.nodeId = g.nodeId) _ _ ?_ (fun b a _ hb => hb)
+      refine foldl_inv (rmStep _) (fun g' : MG => g'.nodeId = g.nodeId) _ g rfl ?_
+      intro b a _ hb
+      show (List.foldl (addNew a) b _).nodeId = g.nodeId
+      refine foldl_inv (addNew a) (fun g' : MG => g'.nodeId = g.nodeId) _ b hb ?_
+      intro b' a' _ hb'
+      unfold addNew; split <;> exact hb'
+    rw [hid]
+    apply h.ids n _ k hk
+    rw [hnodes] at hn
+    obtain ⟨q, hq, hq1⟩ := List.mem_map.1 hn
+    exact List.mem_map.2 ⟨q, (List.mem_filter.1 hq).1, hq1⟩
+
 end Graphiq.Compare
